@@ -17,6 +17,18 @@ CLAIMED = {
         technique='Lean 4 invariant proof (stability of strategy outcomes) + differential correspondence',
         ref='7/C03'),
 }
+CLAIMED['C04'] = dict(
+    text='Machine-checked proof (Lean 4): a solved return of the solver model contains every requested form, every required line of every participating form and everything its lines read, with the forms those lines belong to (solved_contains_closure); and the final state lies below EVERY state that contains the request and is closed under attempting demanded lines / answering needed inputs (solution_is_least) — so it is exactly the demand closure; input-only loading adds no line. For arbitrary catalogues, schedules, inputs. Tied to solver.py by the solve-toy correspondence; the statement is re-checked on real solves by recomputing the closure with read-recording accessors.',
+    note='Trusted: Lean kernel; solver model validated differentially; lines are strategy trees; prompt absent or total (with a partially refusing prompt only the completeness half applies).',
+    technique='Lean 4 least-closed-state (confluence) proof + differential correspondence', ref='7/C04')
+CLAIMED['C05'] = dict(
+    text='Machine-checked proof (Lean 4) of order independence on the statement-by-statement solver model: for every catalogue and input file, any two runs under ANY two attempt schedules (arbitrary permutations at the four ordering sites of solver.py) and any order/multiplicity of the requested forms, with no prompt or a total prompt, that both return, return the same verdict, values, demanded lines, forms, final inputs and diagnostics (closed-state argument: every reachable state lies below every closed final state). The real solver is driven through other schedules by the guarded hook; the model is validated under the same schedules, and the statement is checked on real runs under random schedules, reversed requests, re-laid-out input files and random file/prompt splits.',
+    note='Trusted: Lean kernel; solver model validated differentially under hooked schedules; NOT proved: agreement of the abort kind when every schedule aborts, and independence when a line observes the set of loaded forms through Field.form(name) (non-monotone; known finding); file-layout independence is proved for written files (Ini model) and tested for hand-written layouts.',
+    technique='Lean 4 confluence proof over all schedules + hook-driven differential correspondence', ref='7/C05')
+CLAIMED['C19'] = dict(
+    text='Machine-checked proof (Lean 4): for every list of (field name, text) pairs of arbitrary characters except a raw CR, decoding the FDF text produced by the model of _create_fdf under the PDF literal-string syntax returns exactly those pairs (induction on the characters; negative control: without escaping it is false); the forms filled are exactly the sections needing filing, once each, ordered by (jurisdiction, sequence number), stably; length-limited and choice fields never truncate or substitute. The model is compared byte for byte with the real _create_fdf / fill on generated inputs; the statement is checked by filling solved real returns (adversarial text in every string input) with pdftk replaced by a recorder and decoding the FDFs with an independent decoder.',
+    note='Trusted: Lean kernel; Ini/Pdf models validated differentially; pdftk reads FDF strings per ISO 32000 7.3.4.2; text is printable ASCII.',
+    technique='Lean 4 round-trip proof by induction + differential correspondence', ref='7/C19')
 NOT_YET = {}
 ALL = [f'C{i:02d}' for i in range(1, 21)]
 
